@@ -175,6 +175,11 @@ func (e *env) act(s *broker.Session, normal, mis func()) {
 	case "BDrop":
 	case "BMisaddr":
 		mis()
+	case "BDup":
+		// the answer written 3-6 times back-to-back
+		for i, k := 0, 3+e.c.Pos%2+2*(e.c.CtxMs/100%2); i < k; i++ {
+			normal()
+		}
 	case "BDisconnect":
 		if e.c.Silent {
 			s.Link.Sever(memtr.Silent)
@@ -271,7 +276,11 @@ func (e *env) handler(s *broker.Session, m message.Message) {
 		normal := func() {
 			s.Send(&message.UpstreamMetadataAck{RequestID: v.RequestID, ResultCode: message.ResultCodeSucceeded})
 		}
-		if e.hit("UpstreamMetadata") {
+		if e.c.Scen == "ScDupBurst" {
+			for i := 0; i < 6; i++ {
+				normal()
+			}
+		} else if e.hit("UpstreamMetadata") {
 			e.act(s, normal, func() {
 				s.Send(&message.UpstreamMetadataAck{RequestID: v.RequestID + 1001, ResultCode: message.ResultCodeSucceeded})
 			})
@@ -590,6 +599,97 @@ func runCase(c *caseIn) (o obs, direct string) {
 			return up.Flush(ctx)
 		}
 		follow = func(ctx context.Context) error { return up.Close(ctx) }
+	case "ScDupBurst":
+		// c.Pos requests one after the other; the broker writes every answer 6 times back-to-back
+		call = func(ctx context.Context) error {
+			for i := 0; i < c.Pos; i++ {
+				rctx, rcancel := bg(ms(c.CtxMs))
+				err := conn.SendBaseTime(rctx, baseTime())
+				rcancel()
+				if err != nil {
+					return fmt.Errorf("request %d: %w", i, err)
+				}
+			}
+			return nil
+		}
+	case "ScReentrantHook":
+		// a user callback calls back into the stream it belongs to: it must return, and the call
+		// that triggered it completes within its bound
+		ran := make(chan struct{}, 16)
+		sig := func() {
+			select {
+			case ran <- struct{}{}:
+			default:
+			}
+		}
+		waitRan := func(ctx context.Context) error {
+			select {
+			case <-ran:
+				return nil
+			case <-ctx.Done():
+				return fmt.Errorf("the callback did not complete: %w", ctx.Err())
+			}
+		}
+		switch c.Pos {
+		case 0, 1, 2, 4:
+			var opts []iscp.UpstreamOption
+			switch c.Pos {
+			case 0:
+				opts = append(opts, iscp.WithUpstreamSendDataPointsHooker(iscp.SendDataPointsHookerFunc(func(uuid.UUID, iscp.UpstreamChunk) { up.State(); sig() })))
+			case 1:
+				opts = append(opts, iscp.WithUpstreamReceiveAckHooker(iscp.ReceiveAckHookerFunc(func(uuid.UUID, iscp.UpstreamChunkResult) { up.State(); sig() })))
+			case 2:
+				opts = append(opts, iscp.WithUpstreamClosedEventHandler(iscp.UpstreamClosedEventHandlerFunc(func(*iscp.UpstreamClosedEvent) { up.State(); sig() })))
+			case 4:
+				opts = append(opts, iscp.WithUpstreamSendDataPointsHooker(iscp.SendDataPointsHookerFunc(func(uuid.UUID, iscp.UpstreamChunk) {
+					fctx, fcancel := bg(100 * time.Millisecond)
+					defer fcancel()
+					up.Flush(fctx)
+					up.State()
+					sig()
+				})))
+			}
+			if d := openUp(opts...); d != "" {
+				return o, d
+			}
+			call = func(ctx context.Context) error {
+				if err := up.WriteDataPoints(ctx, dataID, point()); err != nil {
+					return err
+				}
+				if err := up.Flush(ctx); err != nil {
+					return err
+				}
+				if c.Pos == 2 {
+					if err := up.Close(ctx); err != nil {
+						return err
+					}
+				}
+				return waitRan(ctx)
+			}
+			if c.Pos == 2 {
+				follow = followDefault
+			} else {
+				follow = func(ctx context.Context) error { return up.Close(ctx) }
+			}
+		default:
+			cl, _, es := guarded(setupWd, func() error {
+				ctx, cancel := bg(2 * time.Second)
+				defer cancel()
+				var err error
+				down, err = conn.OpenDownstream(ctx, []*message.DownstreamFilter{message.NewDownstreamFilterAllFor("src")},
+					iscp.WithDownstreamClosedEventHandler(iscp.DownstreamClosedEventHandlerFunc(func(*iscp.DownstreamClosedEvent) { down.State(); sig() })))
+				return err
+			})
+			if cl != "ONil" {
+				return o, "harness: open downstream: " + cl + " " + es
+			}
+			call = func(ctx context.Context) error {
+				if err := down.Close(ctx); err != nil {
+					return err
+				}
+				return waitRan(ctx)
+			}
+		}
 	case "ScCloseSilent":
 		// stream Close against a broker that answers pings but neither acknowledges chunks nor
 		// answers the close request.  pos 0: downstream, pos 1: downstream with a read result pending
@@ -830,7 +930,7 @@ func main() {
 		}
 		scens := []sp{{"ScOpenUp", 1}, {"ScOpenDown", 1}, {"ScWrite", 1}, {"ScFlush", 1}, {"ScRead", 1}, {"ScReadMeta", 1},
 			{"ScMetadata", 1}, {"ScCall", 1}, {"ScCallWait", 2}, {"ScUpClose", 2}, {"ScDownClose", 1}, {"ScConnClose", 1}}
-		behs := []string{"BAnswer", "BDelay", "BDrop", "BMisaddr", "BDisconnect"}
+		behs := []string{"BAnswer", "BDelay", "BDrop", "BMisaddr", "BDisconnect", "BDup"}
 		ctxs := []int{300}
 		reps := 1
 		if *tier == "thorough" {
@@ -842,7 +942,9 @@ func main() {
 				for pos := 0; pos < s.npos; pos++ {
 					for _, bh := range behs {
 						for _, ctx := range ctxs {
-							if bh != "BDisconnect" && rep == 0 && *tier != "thorough" {
+							if bh == "BDup" {
+								ctx = 300
+							} else if bh != "BDisconnect" && rep == 0 && *tier != "thorough" {
 								// quick: vary the deadline with the seed on the non-disconnect cells (100-300 ms)
 								ctx = 100 + 50*r.Intn(5)
 							}
@@ -897,6 +999,14 @@ func main() {
 					j.PingInt, j.PingTo, j.DelayMs = 2000, 2000, 150 // the slow transport must not trip the keepalive
 				}
 				jobs = append(jobs, j)
+			}
+			// bursts of duplicated answers over many requests
+			for _, k := range []int{200, 600} {
+				jobs = append(jobs, mk("ScDupBurst", "BDup", k, 300, 5000))
+			}
+			// re-entrant user callbacks (send hook, ack hook, closed handlers; State() and Flush from the callback)
+			for k := 0; k < 5; k++ {
+				jobs = append(jobs, mk("ScReentrantHook", "BAnswer", k, 300, 5000))
 			}
 			// Conn-level requests whose context is already done at entry
 			for _, sc := range []string{"ScOpenUp", "ScOpenDown", "ScMetadata", "ScCall", "ScCallWait"} {
@@ -970,7 +1080,7 @@ func main() {
 		w.Count("beh:" + jobs[i].Beh)
 		w.Count("class:" + cs.Observed.(obs).Class)
 	}
-	rule := "every API scenario (open up/down, write, flush, read, read-metadata, metadata, call, call-and-wait, stream close up/down, conn close) x exchange position x broker behaviour {answer, delay 60 ms, drop, misaddress (reply for another request id / stream alias / call id / unsubscribed source node), disconnect (loud; thorough also silent)} with a context deadline of 100-300 ms, ping 20/40 ms, close timeout 5 s and 120 ms; plus 1/3/8 Flush calls with a cancelled context followed by Write+Flush and Close, stream Close (down / up reliable / up unreliable) against a broker that answers pings but neither acks nor answers the close request, with a context already done at entry or expiring during the final ack flush / ack wait, Conn-level requests with a context already done at entry, ReadDataPoints of a chunk with 2000/8000 alias-addressed groups under a 1 ms ack flush and a State() poller, an inbound flood of 200/1100/3300 uncollected calls, reply calls, chunks and metadata followed by a request, Conn.Close and Upstream.Close during an outage with failing redials (loud / silent), Upstream.Close whose deadlines expire while the sent storage's List is in progress (slow storage), request-after-close (former F5), State() after a late ack (former F13), Conn.Close while another request is in flight (F31). non-trivial = behaviour other than answer; distinct = distinct Coq case terms (durations included)"
+	rule := "every API scenario (open up/down, write, flush, read, read-metadata, metadata, call, call-and-wait, stream close up/down, conn close) x exchange position x broker behaviour {answer, answer written 3-6 times back-to-back, delay 60 ms, drop, misaddress (reply for another request id / stream alias / call id / unsubscribed source node), disconnect (loud; thorough also silent)} with a context deadline of 100-300 ms, ping 20/40 ms, close timeout 5 s and 120 ms; plus 1/3/8 Flush calls with a cancelled context followed by Write+Flush and Close, stream Close (down / up reliable / up unreliable) against a broker that answers pings but neither acks nor answers the close request, with a context already done at entry or expiring during the final ack flush / ack wait, Conn-level requests with a context already done at entry, 200/600 requests in a row whose answers are each written 6 times back-to-back, user callbacks (send hook, ack hook, closed handlers) that call State() / Flush on their own stream, ReadDataPoints of a chunk with 2000/8000 alias-addressed groups under a 1 ms ack flush and a State() poller, an inbound flood of 200/1100/3300 uncollected calls, reply calls, chunks and metadata followed by a request, Conn.Close and Upstream.Close during an outage with failing redials (loud / silent), Upstream.Close whose deadlines expire while the sent storage's List is in progress (slow storage), request-after-close (former F5), State() after a late ack (former F13), Conn.Close while another request is in flight (F31). non-trivial = behaviour other than answer; distinct = distinct Coq case terms (durations included)"
 	if err := w.Flush(*seed, *tier, rule, true, nil); err != nil {
 		fmt.Fprintln(os.Stderr, err)
 		os.Exit(2)
